@@ -178,6 +178,39 @@ func l3Op(f []string, op string) vlib.Res {
 			return vlib.Res{Impl: "no-reply-in-time", Oracle: fmt.Sprintf("FAIL sig=l3/%s/not-within-query-timeout/%s the query did not come back within %s, twice; the resolving process was killed",
 				f[1], reason, limit), Tags: "nt"}
 		}
+		// Oracles that attribute upstream packets to the query in whose window they arrive can be
+		// fooled by a straggler of the previous query (a detached probe lives up to an exchange timeout
+		// longer than its lookup). A real defect repeats; before such a verdict stands the whole case
+		// is replayed once in a fresh child.
+		if strings.HasPrefix(r.Oracle, "FAIL") && (strings.Contains(r.Oracle, "/sub-query-traffic-without-internal-debit") ||
+			strings.Contains(r.Oracle, "/sub-queries-past-internal-budget") || strings.Contains(r.Oracle, "/upstream-packet-without-debit")) {
+			fam, mode, ops := child.fam, child.mode, child.ops
+			watchdogLog(fmt.Sprintf("window-attribution verdict %q for %q of case %q: replaying the case", r.Oracle, op, ops[0]))
+			child.kill()
+			child = nil
+			if c, err := spawnChild(); err == nil {
+				c.fam, c.mode, c.ops = fam, mode, ops
+				var r2 vlib.Res
+				good := true
+				for i, o := range ops {
+					t := limit
+					if i == 0 {
+						t = 40 * time.Second
+					}
+					time.Sleep(20 * time.Millisecond)
+					if r2, good = c.call(o, t); !good {
+						break
+					}
+				}
+				if good {
+					child = c
+					r2.Tags += ",attribution-retried"
+					return r2
+				}
+				c.kill()
+			}
+			return r
+		}
 		return r
 	}
 }
@@ -192,6 +225,8 @@ func l3Local(f []string) vlib.Res {
 		return l3Again(f)
 	case "warm", "advance", "heal":
 		return l3Misc(f)
+	case "ask":
+		return l3Ask(f)
 	}
 	return vlib.Res{Impl: "bad-op"}
 }
